@@ -5,7 +5,10 @@ package main
 
 import (
 	"bufio"
+	"context"
+	"encoding/hex"
 	"encoding/json"
+	"flag"
 	"fmt"
 	"os"
 	"runtime"
@@ -25,14 +28,28 @@ import (
 
 // Op is one step of a producer program.
 type Op struct {
-	Kind    string  `json:"k"`           // log | logf | tr | sleep
+	Kind    string  `json:"k"`           // log | logf | dyn | tr | via | trig | lvl | sleep
 	Lvl     int     `json:"l,omitempty"` // severity 1..6
 	Org     int     `json:"o,omitempty"` // origin package index 0..2
 	Item    int     `json:"i,omitempty"` // message id, unique and increasing within the producer
 	Reps    int     `json:"r,omitempty"` // identical consecutive calls from one call site
 	Entries []EntOp `json:"e,omitempty"` // tr: the entries collected before Submit
 	Us      int     `json:"us,omitempty"`
+	Nil     bool    `json:"n,omitempty"` // via: log through an explicitly nil tracer (a context without tracer)
+	F       bool    `json:"f,omitempty"` // tr: collect through the other half of the tracer's methods (Collectf)
 }
+
+// The call sites of the origin packages ("variants"): a line is identified by message, level, file and line,
+// i.e. by (item, level, origin, variant); every variant is one source line per level, vDyn and vVia are ONE
+// source line for all levels.
+const (
+	vLog     = 0 // orgX.Log:     log.Info(msg) …
+	vLogf    = 1 // orgX.Logf:    log.Infof("%s", msg) …
+	vCollect = 2 // orgX.Collect: t.Info(msg) … through a possibly-nil tracer
+	vDyn     = 3 // orgX.LogDyn:  f(msg) with f = log.Info … (function value)
+	vVia     = 4 // orgX.Via:     f(t, msg) with f = (*ContextTracer).Info … through a possibly-nil tracer
+	vCollF   = 5 // orgX.Collectf: t.Infof/… — the other half of the tracer's methods
+)
 
 // EntOp is one entry collected by a context tracer.
 type EntOp struct {
@@ -73,40 +90,94 @@ type Spec struct {
 	Light       bool           `json:"light,omitempty"`        // cheap observation: no writer trace, adapter records only (goroutine, item, duplicates); plain calls only
 	Cap         int            `json:"cap,omitempty"`          // 0: the logger's own buffer capacity (1024); else a small one (verif helper)
 	Glue        []string       `json:"glue,omitempty"`         // start-twice | shutdown-twice | nil-adapter | late-adapter | pre-start | nil-tracer | concurrent-shutdown
+	FlagLog     string         `json:"flag_log,omitempty"`     // -log flag given to Start ("" = not given)
+	FlagPkgs    string         `json:"flag_pkgs,omitempty"`    // -plog flag given to Start
+	Sweep       bool           `json:"sweep,omitempty"`        // the last producer logs once per origin × severity and runs alone, first: measures the levels in force after Start
+}
+
+// levelNames is the harness' own reading of the documented level names of the -log / -plog flags
+// ("[trace|debug|info|warning|error|critical]", case-insensitive).
+var levelNames = map[string]int{"trace": 1, "debug": 2, "info": 3, "warning": 4, "error": 5, "critical": 6}
+
+// startCfg is the harness' reading of what Start makes of the flags: -log sets the global level (unknown
+// name: info); a non-empty -plog replaces the package levels by its name=level pairs and activates them; the
+// first pair that is not name=<known level> is "ignored" together with everything after it.
+func startCfg(pre cfgSnap, lf, pf string) cfgSnap {
+	c := pre
+	if lf != "" {
+		c.Glob = levelNames[strings.ToLower(lf)]
+		if c.Glob == 0 {
+			c.Glob = 3
+		}
+	}
+	if pf != "" {
+		m := map[string]int{}
+		for _, pair := range strings.Split(pf, ",") {
+			kv := strings.Split(pair, "=")
+			if len(kv) != 2 || levelNames[strings.ToLower(kv[1])] == 0 {
+				break
+			}
+			m[kv[0]] = levelNames[strings.ToLower(kv[1])]
+		}
+		c.Active, c.Pkgs = true, m
+	}
+	return c
+}
+
+func hexOrDash(s string) string {
+	if s == "" {
+		return "-"
+	}
+	return hex.EncodeToString([]byte(s))
 }
 
 var orgNames = []string{"orga", "orgb", "orgc"}
 
 type orgFns struct {
-	log, logf func(int, string, int, func())
-	tracer    func() *log.ContextTracer
-	collect   func(*log.ContextTracer, []orga.Entry, func())
+	log, logf, dyn func(int, string, int, func())
+	via            func(*log.ContextTracer, int, string)
+	tracer         func() *log.ContextTracer
+	collect        func(*log.ContextTracer, []orga.Entry, func())
+	collectf       func(*log.ContextTracer, []orga.Entry, func())
 }
 
 var orgs = []orgFns{
-	{orga.Log, orga.Logf, orga.Tracer, orga.Collect},
-	{orgb.Log, orgb.Logf, orgb.Tracer, func(t *log.ContextTracer, e []orga.Entry, f func()) {
+	{orga.Log, orga.Logf, orga.LogDyn, orga.Via, orga.Tracer, orga.Collect, orga.Collectf},
+	{orgb.Log, orgb.Logf, orgb.LogDyn, orgb.Via, orgb.Tracer, func(t *log.ContextTracer, e []orga.Entry, f func()) {
 		x := make([]orgb.Entry, len(e))
 		for i := range e {
 			x[i] = orgb.Entry(e[i])
 		}
 		orgb.Collect(t, x, f)
+	}, func(t *log.ContextTracer, e []orga.Entry, f func()) {
+		x := make([]orgb.Entry, len(e))
+		for i := range e {
+			x[i] = orgb.Entry(e[i])
+		}
+		orgb.Collectf(t, x, f)
 	}},
-	{orgc.Log, orgc.Logf, orgc.Tracer, func(t *log.ContextTracer, e []orga.Entry, f func()) {
+	{orgc.Log, orgc.Logf, orgc.LogDyn, orgc.Via, orgc.Tracer, func(t *log.ContextTracer, e []orga.Entry, f func()) {
 		x := make([]orgc.Entry, len(e))
 		for i := range e {
 			x[i] = orgc.Entry(e[i])
 		}
 		orgc.Collect(t, x, f)
+	}, func(t *log.ContextTracer, e []orga.Entry, f func()) {
+		x := make([]orgc.Entry, len(e))
+		for i := range e {
+			x[i] = orgc.Entry(e[i])
+		}
+		orgc.Collectf(t, x, f)
 	}},
 }
 
-// itemKey identifies the lines that may be merged with each other: same message, same severity and same
-// call site (variant 0: plain call, 1: formatted call — two different source lines of the origin file).
-func itemKey(item, lvl, variant int, tracer bool) int {
-	k := item*32 + lvl*4 + variant*2
+// itemKey identifies the lines that may be merged with each other: same message, same severity, same file
+// (origin package) and same line (call-site variant), and neither of them a tracer submission — a tracer
+// submission and a plain call are never merged, whatever else they share.
+func itemKey(item, lvl, variant, org int, tracer bool) int {
+	k := (((item*8+lvl)*8+variant)*4 + org) * 2
 	if tracer {
-		k++ // a tracer submission and a plain call are never merged either
+		k++
 	}
 	return k
 }
@@ -116,8 +187,17 @@ func itemKey(item, lvl, variant int, tracer bool) int {
 // identical calls still produce identical lines.
 var payloads = []string{"", "", " x", " two words", " 100%d %s %v", " ünïcödé ✓", " tab\there", " nl\nline", " " + strings.Repeat("long ", 400)}
 
+// suffixBase: item ids b + k*suffixBase (k = 1, 2, …) are the message of item b followed by " #k" — texts
+// of which one is a proper prefix of the other.
+const suffixBase = 200000
+
 func msgText(gid, item int) string {
-	return "g" + strconv.Itoa(gid) + " i" + strconv.Itoa(item) + payloads[(gid*31+item*7)%len(payloads)]
+	b, k := item%suffixBase, item/suffixBase
+	t := "g" + strconv.Itoa(gid) + " i" + strconv.Itoa(b) + payloads[(gid*31+b*7)%len(payloads)]
+	if k > 0 {
+		t += " #" + strconv.Itoa(k)
+	}
+	return t
 }
 
 // parseMsgPrefix reads "g<gid> i<item>" without checking the payload (light mode).
@@ -155,7 +235,17 @@ func parseMsg(s string) (gid, item int, ok bool) {
 		end++
 	}
 	i, e2 := strconv.Atoi(s[sp+2 : end])
-	if e1 != nil || e2 != nil || s != msgText(g, i) {
+	if e1 != nil || e2 != nil || i >= suffixBase {
+		return 0, 0, false
+	}
+	if h := strings.LastIndex(s, " #"); h > 0 && s != msgText(g, i) {
+		k, e3 := strconv.Atoi(s[h+2:])
+		if e3 != nil || k < 1 || k > 4 {
+			return 0, 0, false
+		}
+		i += k * suffixBase
+	}
+	if s != msgText(g, i) {
 		return 0, 0, false
 	}
 	return g, i, true
@@ -201,8 +291,23 @@ type callRec struct {
 	cfg     int  // id of the level configuration in force during the whole call; -1: changed during the call
 	before  bool // the call returned before Shutdown was requested
 	variant int  // 0: Info(msg) …, 1: Infof("%s", msg) … (another call site)
-	kind    byte // 'p' plain call, 't' tracer submission, 'x' unfinished (any form, optional)
+	kind    byte // 'p' plain call, 't' tracer submission, 'x' / 'X' unfinished (any form, optional; X: as a tracer line)
 	entries []int
+}
+
+// entID identifies a collected entry of a submission: its text and its level.
+func entID(item, lvl int) int {
+	if item < 0 {
+		return 0
+	}
+	return item*8 + lvl
+}
+
+func (c *child) key(r callRec) int {
+	if c.spec.Light {
+		return itemKey(r.item, r.lvl, 0, 0, false) // the cheap adapter does not look at call sites (messages are unique there)
+	}
+	return itemKey(r.item, r.lvl, r.variant, r.org, r.kind == 't' || r.kind == 'X')
 }
 
 type prodState struct {
@@ -212,8 +317,10 @@ type prodState struct {
 	cur        []string
 	seq        int
 	opIdx      int
+	opCalls    int // calls completed within the op in progress
 	done       bool
 	curVariant int // call-site variant of the call in progress (written and read on the producer goroutine)
+	curLvl     int // the severity that call is made at (as the program says, not as the logger reports it)
 }
 
 type child struct {
@@ -222,7 +329,13 @@ type child struct {
 	wtoks   []string
 	outs    []string
 	sites   map[string]int
+	files   map[string]int
 	siteVar map[int]int    // site id → call-site variant
+	varSite map[[3]int]int // (variant, origin, level or 0) → site id: every variant is ONE source line
+	siteBad string
+	sweepHit map[int]bool
+	cfgMu   sync.Mutex // serialises level changes (control goroutine, lvl ops of producers)
+	cur     cfgSnap
 	info    map[any]string // line pointer → "id:msgkey:lvl:site:tr" (id = gid.seq)
 	prods   []*prodState
 
@@ -255,22 +368,55 @@ func (c *child) rnd() uint64 {
 	}
 }
 
-func (c *child) content(m log.Message) (gid, item int, tok string) {
+// orgOfFile is the origin package of a call site: the directory of the file, as the logger derives it.
+func orgOfFile(file string) int {
+	seg := strings.Split(file, "/")
+	if len(seg) >= 2 {
+		return pkgID(seg[len(seg)-2]) % 4
+	}
+	return 3
+}
+
+// content canonicalises a line: "msgkey:level:file:line:tracer" with small ids for message and file.
+func (c *child) content(m log.Message) (gid, item int, tok string, sid, org int) {
 	gid, item, ok := parseMsg(m.Text())
 	if !ok {
-		return -1, 0, ""
+		return -1, 0, "", 0, 0
 	}
 	site := m.File() + ":" + strconv.Itoa(m.LineNumber())
-	sid, ok := c.sites[site]
+	sid, ok = c.sites[site]
 	if !ok {
 		sid = len(c.sites) + 1
 		c.sites[site] = sid
+	}
+	fid, ok := c.files[m.File()]
+	if !ok {
+		fid = len(c.files) + 1
+		c.files[m.File()] = fid
 	}
 	tr := 0
 	if _, isT := log.VerifTraceEntries(m); isT {
 		tr = 1
 	}
-	return gid, item, fmt.Sprintf("%d:%d:%d:%d", gid*1000000+item, int(m.Severity()), sid, tr)
+	return gid, item, fmt.Sprintf("%d:%d:%d:%d:%d", gid*1000000+item, int(m.Severity()), fid, m.LineNumber(), tr), sid, orgOfFile(m.File())
+}
+
+// noteSite records which call-site variant a source line belongs to and checks what the item keys rely on:
+// a source line has one variant, a variant (per origin, and per level except for the one-line variants) is
+// one source line.
+func (c *child) noteSite(sid, variant, org, lvl int) {
+	if v, ok := c.siteVar[sid]; ok && v != variant {
+		c.siteBad = fmt.Sprintf("site %d used by variants %d and %d", sid, v, variant)
+	}
+	c.siteVar[sid] = variant
+	k := [3]int{variant, org, lvl}
+	if variant == vDyn || variant == vVia {
+		k[2] = 0
+	}
+	if s0, ok := c.varSite[k]; ok && s0 != sid {
+		c.siteBad = fmt.Sprintf("variant %v has the call sites %d and %d", k, s0, sid)
+	}
+	c.varSite[k] = sid
 }
 
 func (c *child) sink(point string, args ...any) {
@@ -284,7 +430,7 @@ func (c *child) sink(point string, args ...any) {
 	switch {
 	case strings.HasPrefix(point, "p:"):
 		m, _ := args[0].(log.Message)
-		gid, _, tok := c.content(m)
+		gid, _, tok, sid, org := c.content(m)
 		if gid < 0 || gid >= len(c.prods) {
 			c.foreign++
 			break
@@ -297,8 +443,14 @@ func (c *child) sink(point string, args ...any) {
 			if gid >= len(c.spec.Prods) {
 				seq = 0 // replayed pre-Start lines: no program order to compare the channel order with
 			}
+			if c.spec.Sweep && gid == len(c.spec.Prods)-1 {
+				_, it, _ := parseMsg(m.Text())
+				c.sweepHit[it] = true
+			}
 			c.info[args[0]] = fmt.Sprintf("%d.%d:%s", gid, seq, tok)
-			c.siteVar[atoiSafe(strings.Split(tok, ":")[2])] = ps.curVariant
+			if gid < len(c.spec.Prods) {
+				c.noteSite(sid, ps.curVariant, org, ps.curLvl)
+			}
 			c.nLines.Add(1)
 			ps.cur = []string{fmt.Sprintf("p %d %d line", gid, ps.seq)}
 		} else if gid >= len(c.spec.Prods) {
@@ -320,7 +472,7 @@ func (c *child) sink(point string, args ...any) {
 			inf, ok := c.info[args[0]]
 			if !ok {
 				c.foreign++
-				inf = "x.0:0:0:0:0"
+				inf = "x.0:0:0:0:0:0"
 			}
 			delete(c.info, args[0])
 			ev += ":" + inf
@@ -350,7 +502,7 @@ func (c *child) Write(m log.Message, dups uint64) {
 		if !ok || dups > 255 {
 			gid, item = 1<<20, 0 // reported as a line nobody logged
 		}
-		c.lightOuts = append(c.lightOuts, uint64(gid)<<40|uint64(itemKey(item, int(m.Severity()), 0, false))<<8|dups&255)
+		c.lightOuts = append(c.lightOuts, uint64(gid)<<40|uint64(itemKey(item, int(m.Severity()), 0, 0, false))<<8|dups&255)
 		c.nWritten.Add(int64(dups) + 1)
 		if c.shutRet.Load() == 1 {
 			c.afterShLight.Add(1)
@@ -365,7 +517,7 @@ func (c *child) Write(m log.Message, dups uint64) {
 		return
 	}
 	c.mu.Lock()
-	gid, item, tok := c.content(m)
+	gid, item, tok, sid, org := c.content(m)
 	if gid < 0 {
 		c.foreign++
 		c.mu.Unlock()
@@ -373,7 +525,11 @@ func (c *child) Write(m log.Message, dups uint64) {
 	}
 	c.wtoks = append(c.wtoks, fmt.Sprintf("W:%s:%d", tok, dups))
 	es, isT := log.VerifTraceEntries(m)
-	o := fmt.Sprintf("%d:%d:%d", gid, itemKey(item, int(m.Severity()), c.siteVar[atoiSafe(strings.Split(tok, ":")[2])], isT), dups)
+	variant := c.siteVar[sid]
+	if gid >= len(c.spec.Prods) {
+		variant, org = 0, 0 // lines logged before Start (from this file)
+	}
+	o := fmt.Sprintf("%d:%d:%d", gid, itemKey(item, int(m.Severity()), variant, org, isT), dups)
 	if isT {
 		var ids []string
 		for _, e := range es {
@@ -381,7 +537,7 @@ func (c *child) Write(m log.Message, dups uint64) {
 			if !ok {
 				it = -1
 			}
-			ids = append(ids, strconv.Itoa(it))
+			ids = append(ids, strconv.Itoa(entID(it, int(e.Severity()))))
 		}
 		o += ":e" + strings.Join(ids, ",")
 	}
@@ -424,6 +580,23 @@ func toSev(m map[string]int) map[string]log.Severity {
 	return o
 }
 
+// setLevels applies one level change (from the control goroutine or from a producer's lvl op).
+func (c *child) setLevels(kind string, level int, pkgs map[string]int) {
+	c.cfgMu.Lock()
+	defer c.cfgMu.Unlock()
+	switch kind {
+	case "level":
+		c.cur.Glob = level
+		c.applyCfg(func() { log.SetLogLevel(log.Severity(level)) }, c.cur)
+	case "pkgs":
+		c.cur.Active, c.cur.Pkgs = true, pkgs
+		c.applyCfg(func() { log.SetPkgLevels(toSev(pkgs)) }, c.cur)
+	case "unset":
+		c.cur.Active = false
+		c.applyCfg(func() { log.UnSetPkgLevels() }, c.cur)
+	}
+}
+
 func (c *child) runProducer(gid int, prog []Op, wg *sync.WaitGroup) {
 	defer wg.Done()
 	ps := c.prods[gid]
@@ -437,57 +610,127 @@ func (c *child) runProducer(gid int, prog []Op, wg *sync.WaitGroup) {
 		r.before = c.shutReq.Load() == 0
 		ps.mu.Lock()
 		ps.calls = append(ps.calls, r)
+		ps.opCalls++
 		ps.mu.Unlock()
 		e1 = c.epoch.Load()
 	}
 	for i, op := range prog {
 		ps.mu.Lock()
-		ps.opIdx = i
+		ps.opIdx, ps.opCalls = i, 0
 		ps.mu.Unlock()
 		switch op.Kind {
 		case "sleep":
 			time.Sleep(time.Duration(op.Us) * time.Microsecond)
 			e1 = c.epoch.Load()
-		case "log", "logf":
-			f := orgs[op.Org].log
-			v := 0
-			if op.Kind == "logf" {
-				f = orgs[op.Org].logf
-				v = 1
+		case "trig":
+			// paced writer: hand the writer its time slot — a blocking send on the trigger channel, i.e. the
+			// writer starts draining only after everything this goroutine logged so far is in the buffer
+			// (bounded wait: the writer may be asleep with nothing to do)
+			if c.spec.Paced {
+				us := op.Us
+				if us <= 0 {
+					us = 30000
+				}
+				select {
+				case log.TriggerWriterChannel() <- struct{}{}:
+				case <-time.After(time.Duration(us) * time.Microsecond):
+				}
 			}
-			ps.curVariant = v
+			e1 = c.epoch.Load()
+		case "lvl":
+			c.setLevels("level", op.Lvl, nil)
+			e1 = c.epoch.Load()
+		case "log", "logf", "dyn":
+			f, v := orgs[op.Org].log, vLog
+			switch op.Kind {
+			case "logf":
+				f, v = orgs[op.Org].logf, vLogf
+			case "dyn":
+				f, v = orgs[op.Org].dyn, vDyn
+			}
+			ps.curVariant, ps.curLvl = v, op.Lvl
 			e1 = c.epoch.Load()
 			f(op.Lvl, msgText(gid, op.Item), op.Reps, func() { rec(callRec{item: op.Item, lvl: op.Lvl, org: op.Org, variant: v, kind: 'p'}) })
 		case "tr":
-			ps.curVariant = 0
+			vC, collect := vCollect, orgs[op.Org].collect
+			if op.F {
+				vC, collect = vCollF, orgs[op.Org].collectf
+			}
+			ps.curVariant = vC
 			t := orgs[op.Org].tracer()
 			es := make([]orga.Entry, len(op.Entries))
 			ids := make([]int, len(op.Entries))
 			for k, e := range op.Entries {
 				es[k] = orga.Entry{Lvl: e.Lvl, Msg: msgText(gid, e.Item)}
-				ids[k] = e.Item
+				ids[k] = entID(e.Item, e.Lvl)
 			}
 			e1 = c.epoch.Load()
 			if t == nil {
 				// no tracer (trace level not in force for this origin): every entry is a plain call
 				k := 0
-				orgs[op.Org].collect(nil, es, func() {
-					rec(callRec{item: op.Entries[k].Item, lvl: op.Entries[k].Lvl, org: op.Org, kind: 'p'})
+				if len(es) > 0 {
+					ps.curLvl = es[0].Lvl
+				}
+				collect(nil, es, func() {
+					rec(callRec{item: op.Entries[k].Item, lvl: op.Entries[k].Lvl, org: op.Org, variant: vC, kind: 'p'})
 					k++
+					if k < len(es) {
+						ps.curLvl = es[k].Lvl
+					}
 				})
 				break
 			}
-			orgs[op.Org].collect(t, es, func() {})
+			collect(t, es, func() {})
 			e1 = c.epoch.Load()
+			if len(es) > 0 {
+				ps.curLvl = es[len(es)-1].Lvl
+			}
 			t.Submit()
 			if len(es) > 0 {
 				last := op.Entries[len(es)-1]
-				rec(callRec{item: last.Item, lvl: last.Lvl, org: op.Org, kind: 't', entries: ids[:len(ids)-1]})
+				rec(callRec{item: last.Item, lvl: last.Lvl, org: op.Org, variant: vC, kind: 't', entries: ids[:len(ids)-1]})
+			}
+		case "via":
+			// one call site, reached through a possibly-nil tracer: Entries (if a tracer is asked for) and then
+			// the main line (Lvl, Item). Without a tracer every line is a plain call from that very site.
+			ps.curVariant = vVia
+			via := orgs[op.Org].via
+			for rep := 0; rep < max(op.Reps, 1); rep++ {
+				var t *log.ContextTracer
+				ents := op.Entries
+				if op.Nil {
+					ents = nil
+				} else {
+					t = orgs[op.Org].tracer()
+				}
+				if t == nil {
+					for _, e := range ents {
+						e1 = c.epoch.Load()
+						ps.curLvl = e.Lvl
+						via(nil, e.Lvl, msgText(gid, e.Item))
+						rec(callRec{item: e.Item, lvl: e.Lvl, org: op.Org, variant: vVia, kind: 'p'})
+					}
+					e1 = c.epoch.Load()
+					ps.curLvl = op.Lvl
+					via(nil, op.Lvl, msgText(gid, op.Item))
+					rec(callRec{item: op.Item, lvl: op.Lvl, org: op.Org, variant: vVia, kind: 'p'})
+					continue
+				}
+				ids := make([]int, len(ents))
+				for k, e := range ents {
+					via(t, e.Lvl, msgText(gid, e.Item))
+					ids[k] = entID(e.Item, e.Lvl)
+				}
+				via(t, op.Lvl, msgText(gid, op.Item))
+				e1 = c.epoch.Load()
+				ps.curLvl = op.Lvl
+				t.Submit()
+				rec(callRec{item: op.Item, lvl: op.Lvl, org: op.Org, variant: vVia, kind: 't', entries: ids})
 			}
 		}
 	}
 	ps.mu.Lock()
-	ps.opIdx = len(prog)
+	ps.opIdx, ps.opCalls = len(prog), 0
 	ps.done = true
 	ps.mu.Unlock()
 }
@@ -507,13 +750,15 @@ func childMain() {
 	if dn, err := os.OpenFile(os.DevNull, os.O_WRONLY, 0); err == nil {
 		os.Stdout = dn
 	}
-	c := &child{spec: spec, sites: map[string]int{}, siteVar: map[int]int{}, info: map[any]string{}}
+	c := &child{spec: spec, sites: map[string]int{}, files: map[string]int{}, siteVar: map[int]int{}, varSite: map[[3]int]int{}, info: map[any]string{}, sweepHit: map[int]bool{}}
 	c.rng.Store(uint64(spec.Seed)*2654435761 + 88172645463325252)
 	for range spec.Prods {
 		c.prods = append(c.prods, &prodState{})
 	}
-	first := cfgSnap{Glob: spec.Glob, Active: spec.Pkgs != nil, Pkgs: spec.Pkgs}
+	pre := cfgSnap{Glob: spec.Glob, Active: spec.Pkgs != nil, Pkgs: spec.Pkgs}
+	first := startCfg(pre, spec.FlagLog, spec.FlagPkgs) // what has to be in force once Start has read the flags
 	c.cfgs = []cfgSnap{first}
+	c.cur = first
 
 	glue := map[string]bool{}
 	for _, g := range spec.Glue {
@@ -524,27 +769,44 @@ func childMain() {
 	if glue["nil-adapter"] {
 		log.SetAdapter(nil) // documented no-op
 	}
-	preStart := 0
+	log.SetLogLevel(log.Severity(spec.Glob))
+	if spec.Pkgs != nil {
+		log.SetPkgLevels(toSev(spec.Pkgs))
+	}
+	preStart, preTracer := 0, 0
 	if glue["pre-start"] {
 		// logged before Start: outside the statement (replayed by helper goroutines in any order);
-		// counted, must not disturb anything else. Uses a goroutine id nobody else has.
+		// counted, must not disturb anything else. Uses goroutine ids nobody else has: one for plain lines,
+		// one for a tracer submission made before Start (kept and submitted once the logger runs).
 		preStart = 3
-		c.prods = append(c.prods, &prodState{}) // pseudo goroutine for the replayed lines
+		c.prods = append(c.prods, &prodState{}, &prodState{}) // pseudo goroutines for the replayed lines
 		for i := 0; i < preStart; i++ {
 			log.Warning(msgText(len(spec.Prods), 1))
+		}
+		if ctx, t := log.AddTracer(context.Background()); t != nil {
+			if _, again := log.AddTracer(ctx); again != nil {
+				fmt.Fprintln(os.Stderr, "child: AddTracer handed out a second tracer for one context")
+				os.Exit(5)
+			}
+			preTracer = 1
+			t.Warning(msgText(len(spec.Prods)+1, 1))
+			t.Submit()
 		}
 	}
 	if spec.Paced {
 		log.EnableScheduling()
 	}
-	log.SetLogLevel(log.Severity(spec.Glob))
-	if spec.Pkgs != nil {
-		log.SetPkgLevels(toSev(spec.Pkgs))
+	if spec.FlagLog != "" {
+		_ = flag.Set("log", spec.FlagLog)
 	}
-	if err := log.Start(); err != nil {
+	if spec.FlagPkgs != "" {
+		_ = flag.Set("plog", spec.FlagPkgs)
+	}
+	if err := log.Start(); err != nil && spec.FlagPkgs == "" { // (a malformed -plog pair is reported as an error, the logger runs)
 		fmt.Fprintln(os.Stderr, "child: start:", err)
 		os.Exit(4)
 	}
+	globAfterStart := int(log.GetLogLevel())
 	if spec.Cap > 0 {
 		log.VerifSetBufferCap(spec.Cap)
 	}
@@ -596,33 +858,44 @@ func childMain() {
 			}
 		}()
 	}
+	// the levels in force after Start, measured on the real logger: the sweep producer logs once per origin and
+	// severity, alone, before anything else happens; thr[o] = lowest severity that passed the filter
+	startLine := ""
+	if spec.Sweep && len(spec.Prods) > 0 {
+		var w1 sync.WaitGroup
+		w1.Add(1)
+		c.runProducer(len(spec.Prods)-1, spec.Prods[len(spec.Prods)-1], &w1)
+		c.mu.Lock()
+		thr := [3]int{7, 7, 7}
+		for it := range c.sweepHit {
+			o, l := (it-1)/6, (it-1)%6+1
+			if o >= 0 && o < 3 && l < thr[o] {
+				thr[o] = l
+			}
+		}
+		c.mu.Unlock()
+		startLine = fmt.Sprintf("start %s %s %s %d %d %d %d", hexOrDash(spec.FlagLog), hexOrDash(spec.FlagPkgs),
+			strings.TrimPrefix(pre.line(0), "cfg 0 "), thr[0], thr[1], thr[2], globAfterStart)
+	}
 	// level changes concurrent with the producers
 	aux.Add(1)
 	go func() {
 		defer aux.Done()
-		cur := first
 		for _, op := range spec.Ctl {
 			select {
 			case <-stop:
 				return
 			case <-time.After(time.Duration(op.DelayUs) * time.Microsecond):
 			}
-			switch op.Kind {
-			case "level":
-				cur.Glob = op.Level
-				c.applyCfg(func() { log.SetLogLevel(log.Severity(op.Level)) }, cur)
-			case "pkgs":
-				cur.Active, cur.Pkgs = true, op.Pkgs
-				c.applyCfg(func() { log.SetPkgLevels(toSev(op.Pkgs)) }, cur)
-			case "unset":
-				cur.Active = false
-				c.applyCfg(func() { log.UnSetPkgLevels() }, cur)
-			}
+			c.setLevels(op.Kind, op.Level, op.Pkgs)
 		}
 	}()
 
 	var wg sync.WaitGroup
 	for gid, prog := range spec.Prods {
+		if spec.Sweep && gid == len(spec.Prods)-1 {
+			continue // ran first
+		}
 		wg.Add(1)
 		go c.runProducer(gid, prog, &wg)
 	}
@@ -692,11 +965,22 @@ func childMain() {
 	for i, cf := range c.cfgs {
 		fmt.Fprintln(w, cf.line(i))
 	}
+	if startLine != "" {
+		fmt.Fprintln(w, startLine)
+	}
+	if c.siteBad != "" {
+		fmt.Fprintln(os.Stderr, "child: call sites are not what the item keys assume:", c.siteBad)
+		os.Exit(5)
+	}
 	unfinished := 0
 	for gid, ps := range c.prods {
 		if gid >= len(spec.Prods) {
 			// lines logged before Start: optional, any form
-			fmt.Fprintf(w, "item %d %d %d 0 x u*%d\n", gid, itemKey(1, 4, 0, false), 4, preStart)
+			if gid == len(spec.Prods) {
+				fmt.Fprintf(w, "item %d %d %d 0 x u*%d\n", gid, itemKey(1, 4, 0, 0, false), 4, preStart)
+			} else if preTracer > 0 {
+				fmt.Fprintf(w, "item %d %d %d 0 x u*%d\n", gid, itemKey(1, 4, 0, 0, !spec.Light), 4, preTracer) // (the cheap adapter does not look at tracers)
+			}
 			ps.mu.Lock()
 			for _, p := range ps.paths {
 				fmt.Fprintln(w, p)
@@ -707,16 +991,18 @@ func childMain() {
 		ps.mu.Lock()
 		calls := append([]callRec{}, ps.calls...)
 		paths := append([]string{}, ps.paths...)
-		opIdx, done := ps.opIdx, ps.done
+		opIdx, opCalls, done := ps.opIdx, ps.opCalls, ps.done
 		ps.mu.Unlock()
-		// completed calls, grouped per item
+		// completed calls in program order, grouped: DIRECTLY CONSECUTIVE calls that produce identical lines
+		// (same key; tracer submissions: also the same collected entries) form one item. The same line logged
+		// again later, after other calls, is a new item.
 		type agg struct {
 			first callRec
+			key   int
 			segs  []string
 			n     int
 		}
 		var items []*agg
-		byItem := map[int]*agg{} // by itemKey
 		addSeg := func(a *agg, cfg int, before bool) {
 			a.n++
 			b := 0
@@ -736,53 +1022,73 @@ func childMain() {
 			}
 			a.segs = append(a.segs, key+"*1")
 		}
-		for _, r := range calls {
-			a := byItem[itemKey(r.item, r.lvl, r.variant, r.kind == 't' || r.kind == 'X')]
-			if a == nil {
-				a = &agg{first: r}
-				byItem[itemKey(r.item, r.lvl, r.variant, r.kind == 't' || r.kind == 'X')] = a
-				items = append(items, a)
+		sameInts := func(x, y []int) bool {
+			if len(x) != len(y) {
+				return false
 			}
+			for i := range x {
+				if x[i] != y[i] {
+					return false
+				}
+			}
+			return true
+		}
+		add := func(r callRec) {
+			k := c.key(r)
+			if n := len(items); n > 0 && items[n-1].key == k && items[n-1].first.kind == r.kind && sameInts(items[n-1].first.entries, r.entries) {
+				addSeg(items[n-1], r.cfg, r.before)
+				return
+			}
+			a := &agg{first: r, key: k}
+			items = append(items, a)
 			addSeg(a, r.cfg, r.before)
+		}
+		for _, r := range calls {
+			add(r)
 		}
 		// calls not completed when the run ended (producer cut off by Shutdown): may or may not appear
 		if !done {
 			unfinished++
-			for _, op := range spec.Prods[gid][min(opIdx, len(spec.Prods[gid])):] {
-				var pend []callRec
+			for j := min(opIdx, len(spec.Prods[gid])); j < len(spec.Prods[gid]); j++ {
+				op := spec.Prods[gid][j]
+				doneHere := 0
+				if j == opIdx {
+					doneHere = opCalls
+				}
+				opt := func(item, lvl, variant int, kind byte) {
+					add(callRec{item: item, lvl: lvl, org: op.Org, variant: variant, kind: kind, cfg: -1})
+				}
 				switch op.Kind {
-				case "log", "logf":
-					v := 0
-					if op.Kind == "logf" {
-						v = 1
-					}
-					a := byItem[itemKey(op.Item, op.Lvl, v, false)]
-					left := op.Reps
-					if a != nil {
-						left -= a.n
-					}
-					for k := 0; k < left; k++ {
-						pend = append(pend, callRec{item: op.Item, lvl: op.Lvl, org: op.Org, variant: v, kind: 'p'})
+				case "log", "logf", "dyn":
+					v := map[string]int{"log": vLog, "logf": vLogf, "dyn": vDyn}[op.Kind]
+					for k := doneHere; k < op.Reps; k++ {
+						opt(op.Item, op.Lvl, v, 'p')
 					}
 				case "tr":
 					// either submitted as one tracer line or (nil tracer) entry by entry: leave every entry optional
-					for _, e := range op.Entries {
-						if byItem[itemKey(e.Item, e.Lvl, 0, false)] == nil {
-							pend = append(pend, callRec{item: e.Item, lvl: e.Lvl, org: op.Org, kind: 'x'})
+					vC := vCollect
+					if op.F {
+						vC = vCollF
+					}
+					for k := min(doneHere, len(op.Entries)); k < len(op.Entries); k++ {
+						opt(op.Entries[k].Item, op.Entries[k].Lvl, vC, 'x')
+					}
+					if n := len(op.Entries); n > 0 && doneHere == 0 {
+						opt(op.Entries[n-1].Item, op.Entries[n-1].Lvl, vC, 'X')
+					}
+				case "via":
+					// every repetition that may still be running: its lines as plain calls or as one submission
+					for k := 0; k < max(op.Reps, 1); k++ {
+						if !op.Nil {
+							for _, e := range op.Entries {
+								opt(e.Item, e.Lvl, vVia, 'x')
+							}
+						}
+						opt(op.Item, op.Lvl, vVia, 'x')
+						if !op.Nil {
+							opt(op.Item, op.Lvl, vVia, 'X')
 						}
 					}
-					if n := len(op.Entries); n > 0 && byItem[itemKey(op.Entries[n-1].Item, op.Entries[n-1].Lvl, 0, true)] == nil {
-						pend = append(pend, callRec{item: op.Entries[n-1].Item, lvl: op.Entries[n-1].Lvl, org: op.Org, kind: 'X'})
-					}
-				}
-				for _, r := range pend {
-					a := byItem[itemKey(r.item, r.lvl, r.variant, r.kind == 't' || r.kind == 'X')]
-					if a == nil {
-						a = &agg{first: r}
-						byItem[itemKey(r.item, r.lvl, r.variant, r.kind == 't' || r.kind == 'X')] = a
-						items = append(items, a)
-					}
-					addSeg(a, -1, false)
 				}
 			}
 		}
@@ -796,7 +1102,7 @@ func childMain() {
 				}
 				ent = " e" + strings.Join(ids, ",")
 			}
-			fmt.Fprintf(w, "item %d %d %d %d %s %s%s\n", gid, itemKey(a.first.item, a.first.lvl, a.first.variant, a.first.kind == 't' || a.first.kind == 'X'), a.first.lvl, a.first.org, kind, strings.Join(a.segs, ","), ent)
+			fmt.Fprintf(w, "item %d %d %d %d %s %s%s\n", gid, a.key, a.first.lvl, a.first.org, kind, strings.Join(a.segs, ","), ent)
 		}
 		for _, p := range paths {
 			fmt.Fprintln(w, p)
